@@ -101,6 +101,13 @@ def check_init_layouts(ctx, R, tu, I, what=("mesh_x0", "mesh_chstt")):
             if ".system.state" in src or ".system.chemostats" in src:
                 sm_params.setdefault(name, set()).add(p.get("name"))
     n_inst = 0
+    # the counts handed to the transposition (and to any helper taking counts) have the kind their parameter names:
+    # SpeciesFirstToMeshFirstArray(a, n_species, n_meshes) called with (a, n_meshes, n_species) transposes with the wrong strides
+    for n_, fq, whatc, want, got in I.extent_checks:
+        if fq.startswith("engineexport_initialize"):
+            ctx.check(want == got, R, n_, fq, whatc, "a count of kind %r" % (want,), "a count parameter of kind %r receives %r: the "
+                      "species-major input is re-laid out (or redistributed) with the two extents exchanged, entries land on "
+                      "other (species, cell) pairs" % (want, got), nontrivial=False)
     for name in ("engineexport_initialize_grid", "engineexport_initialize_graph"):
         f = tu.fn(name)
         ctx.need(len(sm_params.get(name, ())) == 2, R, "%s: state / chemostat FFI positions not found" % name)
